@@ -3,9 +3,10 @@
 // harness-managed storage, and records what happened. A dumb executor: no model of RLBox.
 //
 // Backend selected at compile time: -DBK_VM (foreign-ABI vm backend, finder-based
-// example translation, 2 callback slots) or -DBK_NOOP (bundled no-op backend, 64 slots).
+// example translation, 2 callback slots), -DBK_NOOP (bundled no-op backend, 64 slots) or
+// -DBK_DYLIB (bundled dylib backend over two builds of harness/guestlib.c, 64 slots).
 //
-// usage: sbx_driver <walks.txt> <trace.ndjson> [first_line]
+// usage: sbx_driver <walks.txt> <trace.ndjson> [first_line [libguest1.so libguest2.so]]
 #define RLBOX_USE_EXCEPTIONS
 #if defined(BK_NOOP)
 #  define RLBOX_USE_STATIC_CALLS() rlbox_noop_sandbox_lookup_symbol
@@ -13,6 +14,10 @@
 #include "rlbox.hpp"
 #if defined(BK_NOOP)
 #  include "rlbox_noop_sandbox.hpp"
+#elif defined(BK_DYLIB)
+#  include "rlbox_dylib_sandbox.hpp"
+#  include <dlfcn.h>
+#  define BK_NATIVE 1
 #else
 #  include "vm_sandbox.hpp"
 #endif
@@ -32,8 +37,13 @@
 using namespace rlbox;
 
 #if defined(BK_NOOP)
+#  define BK_NATIVE 1
 using Sbx = rlbox_noop_sandbox;
 static const char* BACKEND = "noop";
+#elif defined(BK_DYLIB)
+using Sbx = rlbox_dylib_sandbox;
+static const char* BACKEND = "dylib";
+static const char* g_libpath[3] = { "", "", "" };
 #else
 using Sbx = rlbox_vm_sandbox<vm_abi_wasm32, 12, true, 2>;
 static const char* BACKEND = "vm";
@@ -106,7 +116,16 @@ long callB_raw(unsigned long long entry, int a, int b);
 static int g_ran_lib = -1, g_ran_count = 0;
 static const char* g_ran_fn = "";
 
-#if defined(BK_NOOP)
+#if defined(BK_DYLIB)
+// the guest functions live in libguest<k>.so and report through this hook (found with dlsym on
+// the main program, which is linked with -rdynamic)
+extern "C" void harness_ran(int lib, const char* fn)
+{
+  g_ran_lib = lib;
+  g_ran_fn = fn;
+  g_ran_count++;
+}
+#elif defined(BK_NOOP)
 // static calls: the "guest" functions are host functions with the application ABI
 extern "C" {
 int n1(int x)
@@ -168,6 +187,7 @@ struct World
 {
   std::unique_ptr<RS> sb[NSB];
   bool created[NSB] = { false, false, false };  // harness' own record of what create/destroy returned
+  int libof[NSB] = { 0, 0, 0 };                 // library of the current incarnation
   std::vector<uintptr_t> bases[NSB];            // region base per successful create
   tainted<int*, Sbx> last_malloc[NSB];
   // entries ever handed out per sandbox: (entry value, is sig B)
@@ -258,7 +278,7 @@ static void teardown()
     W->sb[i].release(); // intentionally leaked: owners of buggy trees may still point here
   }
   W.reset();
-#if !defined(BK_NOOP)
+#if !defined(BK_NATIVE)
   Sbx::release_deferred();
 #endif
 }
@@ -332,6 +352,13 @@ int main(int argc, char** argv)
   }
   std::ifstream in(argv[1]);
   long first = argc > 3 ? std::atol(argv[3]) : 1;
+#if defined(BK_DYLIB)
+  if (argc < 6) {
+    return 2;
+  }
+  g_libpath[1] = argv[4];
+  g_libpath[2] = argv[5];
+#endif
   if (!in || !out.open(argv[2])) {
     return 2;
   }
@@ -339,8 +366,9 @@ int main(int argc, char** argv)
   std::map<const RS*, std::string> names;
   sb_names = &names;
   detail::verif_event_hook = list_hook;
-#if !defined(BK_NOOP)
+#if !defined(BK_NATIVE)
   Sbx::defer_unmap = true;
+  Sbx::keep_base_after_destroy = true;
 #endif
 
   std::string line;
@@ -369,7 +397,7 @@ int main(int argc, char** argv)
         names[W->sb[i].get()] = SB_NAMES[i];
         sbs += std::string(i ? "," : "") + "\"" + SB_NAMES[i] + "\"";
       }
-#if !defined(BK_NOOP)
+#if !defined(BK_NATIVE)
       Sbx::default_usable_slots = std::atoi(a2.c_str());
 #endif
       int nbulk = std::atoi(a3.c_str());
@@ -411,7 +439,7 @@ int main(int argc, char** argv)
       int s = sb_idx(a1);
       size_t k = std::atoi(a2.c_str());
       skip = !W->sb[s] || k < 1 || k > W->bases[s].size();
-#if defined(BK_NOOP)
+#if defined(BK_NATIVE)
       skip = true; // identity translation: the registry is not observable
 #endif
     } else if (op == "create" || op == "destroy" || op == "malloc" || op == "free") {
@@ -442,6 +470,13 @@ int main(int argc, char** argv)
             throw std::logic_error("nofail");
           }
           bool ok = W->sb[s]->create_sandbox();
+#elif defined(BK_DYLIB)
+          if (fail) {
+            // a library that cannot be loaded aborts the process: not a reportable failure
+            throw std::logic_error("nofail");
+          }
+          W->sb[s]->create_sandbox(g_libpath[lib]);
+          bool ok = true;
 #else
           Sbx::fail_next_create = fail;
           bool ok = W->sb[s]->create_sandbox(&libs[lib]);
@@ -449,13 +484,14 @@ int main(int argc, char** argv)
 #endif
           if (ok) {
             W->created[s] = true;
-#if !defined(BK_NOOP)
+            W->libof[s] = lib;
+#if !defined(BK_NATIVE)
             W->bases[s].push_back(W->sb[s]->get_sandbox_impl()->base);
 #else
             W->bases[s].push_back(0);
 #endif
             W->entries[s].clear();
-#if !defined(BK_NOOP)
+#if !defined(BK_NATIVE)
             for (unsigned i = 0; i < 2; i++) {
               W->entries[s].push_back({ Sbx::SlotBase + i, false });
               W->entries[s].push_back({ Sbx::SlotBase + i, true });
@@ -464,7 +500,7 @@ int main(int argc, char** argv)
           }
           e.str("out", ok ? "ok" : "false");
         } catch (const std::runtime_error&) {
-#if !defined(BK_NOOP)
+#if !defined(BK_NATIVE)
           Sbx::fail_next_create = false;
 #endif
           e.str("out", "abort");
@@ -546,7 +582,7 @@ int main(int argc, char** argv)
               W->entries[s].push_back({ entry, o == 2 });
             }
           }
-#if !defined(BK_NOOP)
+#if !defined(BK_NATIVE)
           e.num("entry", (long long)entry - Sbx::SlotBase + 1);
 #else
           e.num("entry", entry != 0);
@@ -622,7 +658,7 @@ int main(int argc, char** argv)
           if (!pp || !p || !parr) {
             res = "malloc-null";
           } else {
-#if !defined(BK_NOOP)
+#if !defined(BK_NATIVE)
             using GP = Sbx::T_PointerType;
             uintptr_t base = S.get_sandbox_impl()->base;
             GP want = (GP)(reinterpret_cast<uintptr_t>(p.UNSAFE_unverified()) - base);
@@ -658,7 +694,7 @@ int main(int argc, char** argv)
         }
         e.str("out", res);
       } else if (op == "xlate") {
-#if !defined(BK_NOOP)
+#if !defined(BK_NATIVE)
         int s = sb_idx(a1);
         int k = std::atoi(a2.c_str());
         e.str("s", a1).num("k", k);
@@ -691,7 +727,24 @@ int main(int argc, char** argv)
         }
         e.num("ranlib", g_ran_lib).str("ranfn", g_ran_fn).num("count", g_ran_count);
       } else if (op == "fnaddr") {
-#if !defined(BK_NOOP)
+#if defined(BK_DYLIB)
+        // the address of n1 in the library this incarnation was created from (asked from the
+        // dynamic loader directly) must be the address RLBox hands out: logged as 1 / 1
+        int s = sb_idx(a1);
+        e.str("s", a1).str("name", a2);
+        void* h = dlopen(g_libpath[W->libof[s]], RTLD_NOW | RTLD_NOLOAD);
+        void* wantp = h ? dlsym(h, "n1") : nullptr;
+        try {
+          auto fp = W->sb[s]->get_sandbox_function_address(n1);
+          e.str("out", "ok").num("idx", wantp != nullptr && reinterpret_cast<void*>(fp.UNSAFE_unverified()) == wantp ? 1 : 0);
+        } catch (const std::runtime_error&) {
+          e.str("out", "abort").num("idx", 0);
+        }
+        e.num("want", 1);
+        if (h) {
+          dlclose(h);
+        }
+#elif !defined(BK_NOOP)
         int s = sb_idx(a1);
         e.str("s", a1).str("name", a2);
         long want = W->sb[s]->get_sandbox_impl()->func_index("n1");
